@@ -52,7 +52,7 @@ ASSUMPTIONS = [
 # ---------------------------------------------------------------- case data -> line
 def path_str(item, sep):
     comps, lead, trail = item[0], item[1], item[2]
-    return (sep if lead else "") + sep.join(comps) + (sep if trail else "")
+    return sep * int(lead) + sep.join(comps) + sep * int(trail)      # lead / trail: number of separators (bool = 0/1)
 
 
 def _line(d):
@@ -273,7 +273,8 @@ def oracle(case):
     used = sep + d.get("tsep", "")
     if alt and not any(ch in nm_ for nm_ in allnames for ch in used + "".join(alt)):
         sep2 = alt[len(items) % len(alt)]
-        d3 = dict(d, sep=sep2, items=[[it[0], not it[1], not it[2], it[3]] for it in items])
+        # swap the leading/trailing runs (a bijection, so distinct dict keys stay distinct) and change the separator
+        d3 = dict(d, sep=sep2, items=[[it[0], int(it[2]), int(it[1]), it[3]] for it in items])
         if _canon(d3) != _canon(d):
             msgs.append(f"{fn}: result depends on the separator / on leading-trailing separators "
                         f"({sep!r} -> {sep2!r}): {_canon(d)} vs {_canon(d3)}")
@@ -406,7 +407,7 @@ def _rand_case(rng, fn, malformed=False):
                 comps.append(cur[0])
         else:
             comps = _rand_comps(rng, root, names, 7, tree)
-        lead, trail = rng.random() < 0.4, rng.random() < 0.4
+        lead, trail = rng.choice([0, 0, 0, 1, 1, 2]), rng.choice([0, 0, 0, 1, 1, 2])
         if fn in DF_FNS:
             a = {k: (None if rng.random() < 0.3 else U.rand_attr_value(rng, k)) for k in cols}
             a = seen_attr.setdefault(tuple(comps), a)   # same path -> same cells (otherwise: documented refusal)
@@ -448,14 +449,14 @@ def _rand_case(rng, fn, malformed=False):
         elif kind == "emptypath":
             k = rng.randrange(len(items))
             items[k][0] = []
-            items[k][1] = rng.random() < 0.5
-            items[k][2] = False
+            items[k][1] = rng.choice([0, 1])
+            items[k][2] = 0
         elif kind == "conflict":
             k = rng.randrange(len(items))
             a = dict(items[k][3])
             c0 = cols[0] if cols[0] != "name" else cols[-1]
             a[c0] = U.rand_attr_value(rng, c0) if a.get(c0) is None else None
-            items.insert(rng.randint(0, len(items)), [list(items[k][0]), not items[k][1], items[k][2], a])
+            items.insert(rng.randint(0, len(items)), [list(items[k][0]), 0 if items[k][1] else 1, items[k][2], a])
     d["items"] = items
     if fn in DF_FNS:
         d["pathpos"] = rng.choice([0, 0, 1])
